@@ -42,6 +42,7 @@ pub struct Settings {
     pub inner: u64,
     pub conv: Option<f64>,
     pub seed: u64,
+    pub reuse: bool,
 }
 
 impl Settings {
@@ -55,6 +56,7 @@ impl Settings {
             inner: s.u("inner"),
             conv: s.fo("conv"),
             seed: s.u("seed"),
+            reuse: s.u_or("reuse", 0) == 1,
         }
     }
     pub fn to_spec(&self) -> String {
@@ -155,6 +157,8 @@ pub enum Script {
     LnThr,
     /// like Forced but sometimes answers NaN / +inf
     Weird,
+    /// constant score (the warm-up state of reuse=1)
+    Flat,
 }
 
 pub struct ScriptState {
@@ -244,10 +248,11 @@ impl Scripted {
         st.calls += 1;
         let s = &self.settings;
         // the final validity assertion re-scores the held state: answer with its score
-        if k > s.loops() * s.inner_eff() && self.script != Script::Smooth && self.script != Script::Plateau {
+        if k > s.loops() * s.inner_eff() && self.script != Script::Smooth && self.script != Script::Plateau && self.script != Script::Flat {
             return Some(st.believed);
         }
         match self.script {
+            Script::Flat => Some(1.0),
             Script::Smooth => smooth_value(self.sseed, v),
             Script::Plateau => smooth_value(self.sseed, v).map(|x| (x * 40.).floor() / 40.),
             Script::Forced | Script::Weird => {
@@ -445,6 +450,24 @@ pub struct Run {
     pub outcome: String,
 }
 
+/// reuse=1 (C09: "independent of which other replicas ... ran before"): the SAME optimiser object first
+/// optimises an unrelated flat-landscape state (every loop of it counts as converged), then the recorded state
+pub fn warm_up(opt: &packing::MCOptimiser, settings: &Settings) {
+    let flat = Scripted {
+        cells: vec![SharedValue::new(0.5), SharedValue::new(0.25)],
+        handles: vec![(0, 0., 1.), (1, 0., 1.)],
+        script: Script::Flat,
+        sseed: 1,
+        settings: settings.clone(),
+        thresholds: Arc::new(vec![]),
+        log: Arc::new(Mutex::new(vec![])),
+        st: Arc::new(Mutex::new(ScriptState { believed: 0., calls: 0 })),
+    };
+    let _ = catch_unwind(AssertUnwindSafe(|| {
+        let _ = opt.optimise_state(flat);
+    }));
+}
+
 fn run_state<S: State>(
     state: S,
     settings: &Settings,
@@ -453,6 +476,9 @@ fn run_state<S: State>(
 ) -> (Option<Vec<f64>>, Option<String>, String) {
     let _ = &final_cells;
     let opt = settings.builder().build();
+    if settings.reuse {
+        warm_up(&opt, settings);
+    }
     let res = catch_unwind(AssertUnwindSafe(move || {
         let out = opt.optimise_state(state);
         let v: Vec<f64> = out.generate_basis().iter().map(|b| b.get_value()).collect();
@@ -505,6 +531,16 @@ pub fn run_scripted(spec: &Spec) -> Run {
             1 => hi,
             _ => g.range(lo, hi),
         };
+        // outside=1: some parameters start OUTSIDE their declared range (a state loaded from a file may)
+        let v = if spec.u_or("outside", 0) == 1 {
+            match g.below(4) {
+                0 => hi + 0.3 * width + 0.125,
+                1 => lo - 0.2 * width - 0.0625,
+                _ => v,
+            }
+        } else {
+            v
+        };
         cells.push(SharedValue::new(v));
         handles.push((i, lo, hi));
     }
@@ -532,6 +568,9 @@ pub fn run_scripted(spec: &Spec) -> Run {
     };
     // the cells of the returned state are read through the first n handles (1:1 with cells)
     let opt = settings.builder().build();
+    if settings.reuse {
+        warm_up(&opt, &settings);
+    }
     let res = catch_unwind(AssertUnwindSafe(move || {
         let out = opt.optimise_state(state);
         let v: Vec<f64> = out.generate_basis().iter().take(n).map(|b| b.get_value()).collect();
@@ -780,7 +819,7 @@ pub fn monitor(run: &Run) -> (Vec<Finding>, Stats) {
     let input_valid = run.calls.first().map(|c| c.score.is_some()).unwrap_or(false);
     if run.outcome != "ok" {
         if input_valid && s.kt_start >= 0. {
-            add("C20", format!("optimise_state panicked: {}", run.outcome));
+            add("C08,C20", format!("optimise_state panicked: {}", run.outcome));
         }
         return (f, stats);
     }
@@ -1014,13 +1053,13 @@ pub fn monitor(run: &Run) -> (Vec<Finding>, Stats) {
                 _ if undetermined => {}
                 None => {
                     if accepted {
-                        v.push(Finding { property: "C07", what: format!("proposal {} has no defined score but was accepted", k) });
+                        v.push(Finding { property: "C07,C08", what: format!("proposal {} has no defined score but was accepted", k) });
                     }
                 }
                 Some(new) => {
                     if new.is_nan() {
                         if accepted {
-                            v.push(Finding { property: "C07", what: format!("proposal {} scored NaN and was accepted", k) });
+                            v.push(Finding { property: "C07,C08", what: format!("proposal {} scored NaN and was accepted", k) });
                         }
                     } else if new > sc {
                         if !accepted {
@@ -1030,7 +1069,9 @@ pub fn monitor(run: &Run) -> (Vec<Finding>, Stats) {
                         if !accepted && kt >= 0. && thr < 1. {
                             v.push(Finding { property: "C07", what: format!("proposal {} has an equal score but was rejected", k) });
                         }
-                    } else if kt == 0. {
+                    } else if kt == 0. && kt.is_sign_positive() {
+                        // (a NEGATIVE temperature - also the -0.0 a negative kt_start cools to - is outside the
+                        // domain of the Metropolis rule; only undefined scores are still required to be rejected)
                         if accepted {
                             let p = if s.kt_start == 0. { "C05" } else { "C07" };
                             v.push(Finding {
